@@ -13,7 +13,7 @@ CONSTANT MaxLen
 
 Elems == {Nil, Null, Bool(TRUE), IntV(FALSE, <<7>>), FltV(FALSE, <<1, 5>>, -1), Char(97), Str(<<97>>), Sym(<<97>>), Kw(<<97>>),
           Bytes(<<1>>), Vec(<<Sym(<<98>>)>>), List(<<Sym(<<99>>)>>), Cons(Sym(<<97>>), IntV(FALSE, <<1>>))}
-Tails == {Null, Nil, Bool(FALSE), IntV(FALSE, <<9>>), Char(98), Str(<<>>), Sym(<<116>>), Kw(<<107>>), Bytes(<<>>), Vec(<<>>),
+Tails == {Null, Nil, Bool(FALSE), IntV(FALSE, <<9>>), Char(98), Str(<<>>), Sym(<<116>>), Kw(<<107>>), Bytes(<<>>), Vec(<<>>), Vec(<<Sym(<<118>>), Sym(<<119>>)>>), Bytes(<<1, 2>>), Str(<<115, 116>>),
           List(<<Sym(<<120>>), Sym(<<121>>)>>), ListWithTail(<<Sym(<<120>>)>>, Sym(<<122>>))}
 \* association lists: entries with the three name kinds, duplicates, non-pair entries, improper tail
 Keys == {Sym(<<97>>), Str(<<97>>), Kw(<<97>>), Sym(<<98>>), IntV(FALSE, <<1>>)}
@@ -44,7 +44,8 @@ ModelConsistent ==
      V.k = "cons" => /\ SubSeq(Drive(V, LIInit(V), Len(ya) + 2), 1, Len(ya)) = ya
                      /\ Drive(V, LIInit(V), Len(ya) + 3)[Len(ya) + 1] = None
                      /\ Drive(V, LIInit(V), Len(ya) + 3)[Len(ya) + 3] = None
-  /\ \A i \in 0..(MaxLen + 3) : Nth(V, i) = (IF V.k = "cons" /\ i < Len(Cars(V)) THEN Cars(V)[i + 1] ELSE None)
+  /\ \A i \in 0..(MaxLen + 3) : Nth(V, i) = (IF V.k = "cons" /\ i < Len(Cars(V)) THEN Cars(V)[i + 1]
+                                              ELSE IF V.k = "vec" /\ i < Len(V.e) THEN V.e[i + 1] ELSE None)
   /\ IsProperList(V) = ~IsDottedList(V)
 
 Indices == 0..6
